@@ -172,6 +172,12 @@ func (s *Service) proposeBlock(ctx context.Context,
 	}
 
 	if signedProposal.Blinded {
+		if auctionResults == nil {
+			// We have been given a blinded proposal but have no auction results (no auctioneer configured,
+			// or the auction failed), so do not know of any relay that could unblind it.
+			return errors.New("blinded proposal received without auction results; no relays to unblind the block")
+		}
+
 		// Select the relays to unblind the proposal.
 		providers := make([]builderclient.UnblindedProposalProvider, 0, len(auctionResults.AllProviders))
 		unblindingCandidates := auctionResults.Providers
